@@ -5,6 +5,7 @@ import (
 	"bytes"
 	"compress/gzip"
 	"compress/zlib"
+	"context"
 	"encoding/json"
 	"fmt"
 	"io"
@@ -161,6 +162,11 @@ func entryName(e int) string {
 // Serve calls the container through the chosen entry point and returns the panic value that
 // escaped, if any.
 func Serve(c *restful.Container, entry int, w http.ResponseWriter, r *http.Request) (escaped interface{}) {
+	// as with net/http's server, the request's context can be cancelled and is cancelled when the
+	// exchange is over
+	ctx, cancel := context.WithCancel(r.Context())
+	r = r.WithContext(ctx)
+	defer cancel()
 	defer func() {
 		if p := recover(); p != nil {
 			escaped = p
